@@ -31,6 +31,14 @@ def gen(rng, ctx):
         cd = G.rand_circuit(rng, ni, rng.randint(2, 8), max_fanin=4, p_const=0.3, allow_x=rng.random() < 0.3, ensure_loaded=rng.random() < 0.8)
         if rng.random() < 0.6:
             cd = G.add_blackboxes(rng, cd, rng.randint(1, 2), p_unconnected=0.15, bbdefs=[{"name": "rng", "inputs": [], "outputs": ["q"]}, {"name": "src2", "inputs": [], "outputs": ["a", "b"]}] if rng.random() < 0.2 else None)
+        if cd["bbs"] and rng.random() < 0.2:
+            # an instance whose name is <registered instance>.<suffix>: its pins carry two dots, no documented rule is violated
+            host = rng.choice(sorted(cd["bbs"]))
+            inst = f"{host}.{rng.choice(['ff0', 'q', 'x1'])}"
+            drv = rng.choice([n for n, t, _ in cd["nodes"] if t not in ("bb_input", "bb_output")])
+            cd["bbs"][inst] = {"name": "nested", "inputs": ["d"], "outputs": ["q"]}
+            cd["nodes"] += [[f"{inst}.d", "bb_input", False], [f"{inst}.q", "bb_output", False], ["nest_w", "buf", True]]
+            cd["edges"] += [[drv, f"{inst}.d"], [f"{inst}.q", "nest_w"]]
         ncor = rng.choice([0, 1, 1, 1, 2, 3])
         cors = [[rng.choice(CORRUPTIONS), rng.getrandbits(30)] for _ in range(ncor)]
         flags = {"fail_fast": rng.random() < 0.5, "unloaded": rng.random() < 0.4, "undriven": rng.random() < 0.7, "single_input_gates": rng.random() < 0.4}
@@ -77,6 +85,12 @@ def gen(rng, ctx):
             case["c"] = G.add_cycles(rng, case["c"], rng.randint(1, 2))
         if prod == "sequential_unroll" or prod == "strip_blackboxes_then_nothing":
             case["c"] = G.add_blackboxes(rng, case["c"], rng.randint(1, 2), bbdefs=[{"name": "ff", "inputs": ["clk", "d"], "outputs": ["q"]}])
+        if prod == "strip_blackboxes_then_nothing" and rng.random() < 0.6:
+            cd = case["c"]
+            drv = [n for n, t, _ in cd["nodes"] if t not in ("bb_input", "bb_output")]
+            cd["bbs"]["uq"] = {"name": "ffq", "inputs": ["CP", "D"], "outputs": ["Q", "QN"]}
+            cd["nodes"] += [["uq.CP", "bb_input", False], ["uq.D", "bb_input", False], ["uq.Q", "bb_output", False], ["uq.QN", "bb_output", False], ["uq_w", "buf", True]]
+            cd["edges"] += [[rng.choice(drv), "uq.CP"], [rng.choice(drv), "uq.D"], ["uq.Q", "uq_w"]]
         if prod == "bench_roundtrip":
             case["c"] = G.rand_circuit(rng, ni, rng.randint(2, 8), max_fanin=5, p_wide=0.3, p_const=0.6, p_const_output=0.3)
         if prod == "verilog_roundtrip" and rng.random() < 0.5:
@@ -203,6 +217,8 @@ def check_a(case, ctx):
     cg = ctx.cg
     c = G.build(cg, case["c"], "graph")
     applied = corrupt(cg, c, case["corruptions"])
+    if any("." in k for k in c.blackboxes):
+        ctx.count("instance_named_like_pin_of_instance")
     for k in applied:
         ctx.count(f"corruption:{k}")
     if not applied:
@@ -339,6 +355,13 @@ def produce(case, ctx):
         n = rng.choice(sorted(x for x in c.nodes() if "." not in x))
         return [cg.tx.relabel(c, {n: "zz_renamed"})]
     if prod == "strip_blackboxes_then_nothing":
+        if "uq.QN" in c.graph.nodes:
+            # a flop with an open QN pin: that pin (or the clock) is ignored, named as str or in a container
+            pin = rng.choice(["QN", "CP"])
+            form = rng.choice(["str", "str", "list", "tuple", "set"])
+            ctx.count(f"strip_blackboxes:{form}_ignore_pin")
+            arg = {"str": pin, "list": [pin], "tuple": (pin,), "set": {pin}}[form]
+            return [cg.tx.strip_blackboxes(c), cg.tx.strip_blackboxes(c, ignore_pins=arg), cg.tx.strip_blackboxes(c, arg)]
         return [cg.tx.strip_blackboxes(c)]
     if prod == "supergates":
         return list(cg.tx.supergates(c))
@@ -459,7 +482,7 @@ def gates(counters, table, tier):
     for p in PRODUCERS:
         if counters.get(f"produced:{p}", 0) < 3:
             out.append(f"producer {p} delivered {counters.get(f'produced:{p}', 0)} circuits")
-    for k in ("expect_raise", "expect_pass", "fail_fast=True", "fail_fast=False", "corruption:none"):
+    for k in ("expect_raise", "expect_pass", "fail_fast=True", "fail_fast=False", "corruption:none", "instance_named_like_pin_of_instance", "strip_blackboxes:str_ignore_pin"):
         if counters.get(k, 0) < 20:
             out.append(f"{k} seen {counters.get(k, 0)} times")
     return out
